@@ -151,6 +151,12 @@ CLAIMED = {
             "the friction cone.", "4/C16",
             "path-exploring symbolic execution of the real assembly code with the LU contract (rows-as-identities) + z3 per obligation; float replay",
             "Grid of three small systems; contact fixed-point loop bounded to 2 iterations; acceleration-level complementarity only as far as the projections' ranges."),
+    "C23": ("proof", "Newton.fun residual rows are proved identical to static equilibrium h + W_g la_g + W_c la_c, g, c and g_S evaluated independently "
+            "(rigid body on a spherical joint; clamped quaternion-rod cantilever, displacement-based and mixed), Newton.jac is the derivative of fun per "
+            "basis direction, and the residual of a rigidly moved problem is the rotated residual (rigid body; rod in the thorough tier). With C22's "
+            "fsolve contract every converged load step satisfies these rows within the tolerance; truncation / continuation are explored in C21.",
+            "4/C23", "symbolic execution of the real static-solver residual / Jacobian code on z3-term jets + z3 nlsat per scalar obligation; float replay",
+            "That the solvers find an equilibrium, Riks' arc-length control and contact branches are outside; Jacobian per basis direction (three seeded directions per system in the quick tier)."),
 }
 
 NOT_APPLICABLE = {
